@@ -265,7 +265,7 @@ def check_one(sess, backend, path, name, ev, viol, cid, primed=False):
     sess.reset()
     if primed:
         # the previous EVENT on the same connection was genuine and acknowledged true
-        r = sess.submit(primer())
+        r = sess.submit(primer() if primed is True else primed)
         if not (r["ok"] and r["ok"][0][2] is True):
             from ..env import HarnessError
 
@@ -386,8 +386,22 @@ def run_case(case):
                     todo.append(("%s|primed|mut=%s" % (bname, "+".join(m) or "none"), ev))
         if bname == "plain":
             todo += [("primed|" + k, v) for k, v in resigned_variants().items()]
+        use_primer = None
+        if bname == "delegated":
+            # the genuine delegated event was accepted just before: its (valid) delegation tag presented by somebody it was not issued to
+            tag = B()["delegated"]["tags"][0]
+            use_primer = B()["delegated"]
+            for who in ("C", "A", "K1"):
+                e = copy.deepcopy(B()["plain"])
+                e["pubkey"] = PK[who]
+                e["tags"] = [list(tag)]
+                e["content"] = "transplanted by %s" % who
+                todo.append(("primed-by-delegated|transplant_by_%s" % who, resign(e, who)))
+                e2 = copy.deepcopy(e)
+                e2["tags"] = [["t", "x"], list(tag)]
+                todo.append(("primed-by-delegated|transplant_second_tag_by_%s" % who, resign(e2, who)))
         for name, ev in todo:
-            a = check_one(sess, backend, path, name, ev, viol, cid, primed=True)
+            a = check_one(sess, backend, path, name, ev, viol, cid, primed=use_primer if (use_primer is not None and name.startswith("primed-by-delegated")) else True)
             if a is None:
                 continue
             n += 1
